@@ -5,11 +5,17 @@
 //!   lp       case `#bytes`                      -> `( #what-OsString::hash-writes  same_through_HashToDigest )`
 //!   key      case `( (label..) ( req ... ) )`                 -> `( #key ... )`      req = ( digest plusplus Lang (arg..) (extra..) ((k v)..) pp )
 //!   ppkey    case `( (label..) ( preq ... ) )`                -> `( #key|none|err ... )`
-//!                                                   preq = ( digest plusplus Lang (arg..) (extra..) ((k v)..) path input ignore_time )
+//!                                                   preq = ( digest plusplus Lang (arg..) (extra..) ((k v)..) path input ignore_time
+//!                                                            mtime_secs mtime_nanos sde (year month day) )
+//!                                                   sde = () | ( #value-of-SOURCE_DATE_EPOCH ); the file gets exactly that mtime;
+//!                                                   (year month day) is the local date the case was generated on: a request whose
+//!                                                   key depends on the date answers `date_changed` when that is not today
+//!   ppkey-root  same, after chroot() into a private scratch root (so that absolute paths such as /c++/x.h can exist)
 //!   hashpre  case `( item ... )`                -> `( #key|none ... )`  item = none | ( piece ... ),
 //!                                                   piece = #literal-bytes | ( #contents )  (= util::hex(BLAKE3(contents)))
 //!            (this leg turns the MODEL's pre-image into a key: BLAKE3 + `util::hex`, flushing after every line so
 //!             that lib/props/c02.py can keep one process open)
+use filetime::{set_file_mtime, FileTime};
 use sccache::util::{Digest, HashToDigest};
 use sccache::verif_hooks::cache::PreprocessorCacheModeConfig;
 use sccache::verif_hooks::compiler::c::hash_key;
@@ -101,6 +107,19 @@ fn key_of(req: &Sx) -> Sx {
     Sx::B(k.into_bytes())
 }
 
+fn today() -> (i64, i64, i64) {
+    unsafe {
+        let t = libc::time(std::ptr::null_mut());
+        let mut tm: libc::tm = std::mem::zeroed();
+        libc::localtime_r(&t, &mut tm);
+        (tm.tm_year as i64 + 1900, tm.tm_mon as i64 + 1, tm.tm_mday as i64)
+    }
+}
+
+fn contains(hay: &[u8], needle: &[u8]) -> bool {
+    hay.windows(needle.len()).any(|w| w == needle)
+}
+
 fn ppkey_of(req: &Sx) -> Sx {
     let lang = match lang_of(&req.arg(2).str()) {
         Some(l) => l,
@@ -112,12 +131,26 @@ fn ppkey_of(req: &Sx) -> Sx {
     if let Some(parent) = path.parent() {
         let _ = std::fs::create_dir_all(parent);
     }
-    if std::fs::write(path, req.arg(7).bytes()).is_err() {
+    let input = req.arg(7).bytes();
+    if std::fs::write(path, input).is_err() {
         return Sx::sym("err");
     }
+    let ignore = req.arg(8).as_bool();
+    let mtime = FileTime::from_unix_time(req.arg(9).u64() as i64, req.arg(10).u64() as u32);
+    if set_file_mtime(path, mtime).is_err() {
+        return Sx::sym("err");
+    }
+    match req.arg(11).list().first() {
+        Some(v) => std::env::set_var("SOURCE_DATE_EPOCH", OsStr::from_bytes(v.bytes())),
+        None => std::env::remove_var("SOURCE_DATE_EPOCH"),
+    }
+    let date_matters = !ignore && contains(input, b"__DATE__") && !contains(input, b"__TIME__");
+    let d = req.arg(12);
+    let case_date = (d.arg(0).u64() as i64, d.arg(1).u64() as i64, d.arg(2).u64() as i64);
+    let before = today();
     let config = PreprocessorCacheModeConfig {
         use_preprocessor_cache_mode: true,
-        ignore_time_macros: req.arg(8).as_bool(),
+        ignore_time_macros: ignore,
         ..Default::default()
     };
     let r = preprocessor_cache_entry_hash_key(
@@ -130,12 +163,26 @@ fn ppkey_of(req: &Sx) -> Sx {
         req.arg(1).as_bool(),
         config,
     );
+    let after = today();
     let _ = std::fs::remove_file(path);
+    if date_matters && (before != case_date || after != case_date) {
+        return Sx::sym("date_changed");
+    }
     match r {
         Ok(Some(k)) => Sx::B(k.into_bytes()),
         Ok(None) => Sx::sym("none"),
         Err(_) => Sx::sym("err"),
     }
+}
+
+/// chroot into a fresh directory under /dev/shm (removed by lib/props/c02.py afterwards)
+fn enter_private_root() -> bool {
+    let dir = format!("/dev/shm/vh-c02-root-{}", std::process::id());
+    if std::fs::create_dir_all(&dir).is_err() {
+        return false;
+    }
+    let c = std::ffi::CString::new(dir).unwrap();
+    unsafe { libc::chroot(c.as_ptr()) == 0 && libc::chdir(b"/\0".as_ptr() as *const libc::c_char) == 0 }
 }
 
 fn hash_pieces(item: &Sx) -> Sx {
@@ -167,6 +214,16 @@ fn main() {
         "lp" => vh::run_lines(leg_lp),
         "key" => vh::run_lines(|c| Sx::L(c.arg(1).list().iter().map(key_of).collect())),
         "ppkey" => vh::run_lines(|c| Sx::L(c.arg(1).list().iter().map(ppkey_of).collect())),
+        "ppkey-root" => {
+            let ok = enter_private_root();
+            vh::run_lines(|c| {
+                if ok {
+                    Sx::L(c.arg(1).list().iter().map(ppkey_of).collect())
+                } else {
+                    Sx::sym("no_chroot")
+                }
+            })
+        }
         "hashpre" => {
             // interactive: one answer per line, flushed at once
             let stdin = std::io::stdin();
